@@ -9,8 +9,13 @@ Monitor (independent of the Lean model), checked at every trigger call and after
   * the state only moves along documented transitions (the property's own list AND state.dot);
   * leaving `archiving` goes back to where it was entered from;
   * a rejected trigger (exception before the state changes / no edge) changes nothing;
+  * while a transition is in progress (transitioning not active, background step outstanding) every trigger whose
+    transition opens a phase (before = start/save_prior_state/reset) is rejected without effect - probed after
+    every event of every history;
   * `is_pipeline_active()` only at rest in `running` with no background step outstanding;
-  * completing the outstanding steps (any order) brings the pipeline to rest in running/gitting.
+  * completing the outstanding steps (any order) brings the pipeline to rest in running/gitting;
+  * (for C11) `_reload` never runs while the pipeline is active, and after it the pipeline is not active again
+    before `FSM.load` ran (`farm.clear` observed).
 """
 import itertools
 import json
@@ -24,11 +29,11 @@ LEAN_TARGETS = ['DawgieVerif.Model.FsmIO']
 MANIFEST = dict(
     text='Lean theorems over an executable model of the life-cycle FSM whose transition table is regenerated '
          'from pl/state.dot on every run. For ALL histories and states: table_is_documented (the generated table is exactly the documented machine of the property text), moves_along_edges, rejected_no_effect, '
-         'rejected_event_no_effect, active_only_at_rest, nesting_bound_unreached. For histories in which '
+         'rejected_event_no_effect, active_only_at_rest, rev_change_only_inactive (+ _ends), nesting_bound_unreached. For histories in which '
          'Process.step_3 fires only in gitting (Guarded): returns_to_rest_partial with the explicit measure '
-         'complete_decreases_partial, no_half_transition_partial, archive_returns_partial; the negations of the '
-         'three full statements are proved with concrete witnesses (returns_to_rest_fails, no_half_transition_fails, '
-         'archive_returns_fails) that replay on the real FSM. Histories are unbounded (induction over the event list '
+         'complete_decreases_partial, no_half_transition_partial, archive_returns_partial, active_after_reload_needs_load_partial; the negations of the '
+         'four full statements are proved with concrete witnesses (returns_to_rest_fails, no_half_transition_fails, '
+         'archive_returns_fails, active_after_reload_needs_load_fails) that replay on the real FSM. Histories are unbounded (induction over the event list '
          'with a state invariant); per-step facts are closed by kernel evaluation over all 672 control states. '
          'Tied to the real FSM + transitions.Machine by a correspondence run (histories from boot, every trigger and '
          'every completion from every forced control state) and an independent monitor on the real object.',
@@ -67,6 +72,8 @@ MODEL_EV = {'sr': 'sr', 'boot': 'boot', 'sb_api': 'sb', 'sb_old': 'sb', 'se_ok':
 
 
 def model_ev(e):
+    if e.startswith('raw:'):
+        return ['raw', e[4:-8]]
     if e[0] == 'c':
         return ['c', int(e[1:-1]), e[-1] == 'T']
     return MODEL_EV[e]
@@ -89,6 +96,8 @@ def apply(w, e):
         return w.ev_update()
     if e in ('rf', 'rt'):
         return w.ev_reset(e == 'rt')
+    if e.startswith('raw:'):
+        return w.ev_raw(e[4:])
     if e == 'sr':
         return w.ev_second_step3()
     if e in ('lgN', 'lgT', 'apN', 'apT'):
@@ -117,8 +126,13 @@ def run_history(w, archive0, events, res, drain_rng=None, tag='hist'):
     """returns the list of observations; reports monitor hits"""
     w.fresh(archive0)
     obs = []
-    for e in events:
+    for i, e in enumerate(events):
         obs.append(apply(w, e))
+        if w.poisoned or w.probe_all():
+            # a trigger the documented machine does not allow here was accepted: report that, stop here
+            done = list(events[:i + 1]) + ([w.poison_event] if w.poison_event else [])
+            report(w, res, {'kind': 'hist', 'archive0': bool(archive0), 'events': done})
+            return None
     replay = {'kind': 'hist', 'archive0': bool(archive0), 'events': list(events)}
     # returns-to-rest: complete whatever is outstanding, in a chosen order
     before = w.snapshot()
@@ -137,7 +151,8 @@ KNOWN_CAUSES = ('C10:legacy-double-step3', 'C10:submit-overlap')
 # clauses that are proved for Guarded histories only (`…_partial` + `…_fails`): these alone can be consequences
 # of a stray step_3; the other clauses hold for ALL histories (moves_along_edges, rejected_no_effect,
 # active_only_at_rest) and are always reported under their own signature
-CONSEQUENCES = ('C10:archive-origin', 'C10:no-rest', 'C10:step3-outside-gitting', 'C10:refused-submit-moved-state')
+CONSEQUENCES = ('C10:archive-origin', 'C10:no-rest', 'C10:step3-outside-gitting', 'C10:refused-submit-moved-state',
+                'C10:active-without-load')
 
 
 def report(w, res, replay):
@@ -170,12 +185,19 @@ def enumerate_histories(w, res, prefix, depth, archive0, lines, pending, seen_li
         snap = w.snapshot()
         obs = []
         noop_last = False
-        for e in events:
+        for i, e in enumerate(events):
             prev = snap
             o = apply(w, e)
             snap = w.snapshot()
             obs.append(o)
             noop_last = enabled_prune(prev, snap, o)
+            if w.poisoned or w.probe_all():
+                done = list(events[:i + 1]) + ([w.poison_event] if w.poison_event else [])
+                report(w, res, {'kind': 'hist', 'archive0': bool(archive0), 'events': done})
+                break
+        if w.poisoned:
+            count += 1
+            continue
         # drain + monitor on this history (re-run to keep `obs` of the undrained history)
         replay = {'kind': 'hist', 'archive0': bool(archive0), 'events': list(events)}
         before = w.snapshot()
@@ -288,6 +310,18 @@ KNOWN_SCENARIOS = [
     # life-cycle back to running, A's compliance process ends -> A.step_3 raises before the crossroads
     (False, ['boot', 'c0F', 'c0F', 'apN', 'xlg', 'pe']),
 ]
+# a second trigger arrives while the background step of the previous one is still outstanding: every transition
+# that opens a phase (before = start / save_prior_state / reset) must be refused by the `transitioning` guard
+PHASE_CORPUS = [
+    # update accepted, reload outstanding (updating/exiting): archive and refresh must wait for reload.done
+    (False, ['boot', 'c0F', 'c0F', 'up', 'raw:archiving_trigger', 'raw:loading_trigger', 'c0F', 'c0F', 'c0F']),
+    (True, ['boot', 'c0F', 'c0F', 'rt', 'raw:loading_trigger', 'raw:archiving_trigger', 'c0T',
+            'raw:loading_trigger', 'raw:archiving_trigger', 'raw:starting_trigger', 'c0F', 'c0F', 'c0F']),
+    # the same probes while loading / introspecting / archiving from running (no such transition there)
+    (True, ['boot', 'raw:starting_trigger', 'raw:loading_trigger', 'raw:archiving_trigger', 'c0F',
+            'raw:archiving_trigger', 'raw:update_trigger', 'c0F', 'da', 'raw:archiving_trigger',
+            'raw:loading_trigger', 'raw:gitting_trigger', 'c0F']),
+]
 # the witnesses of Props/C10 (`strayWitness`, `originWitness`) replayed on the real FSM: `sr` is a second
 # Process.step_3 on a legacy submission
 STRAY_CORPUS = [
@@ -312,20 +346,23 @@ def run(ctx, res):
     for archive0, events in KNOWN_SCENARIOS:
         run_history(w, archive0, events, res, None)
         res.count('hist:known-finding-scenario')
-    for archive0, events in STRAY_CORPUS + CORPUS:
+    for archive0, events in PHASE_CORPUS + STRAY_CORPUS + CORPUS:
         obs = run_history(w, archive0, events, res, None)
-        record(res, lines, pending, archive0, events, obs, 'corpus')
+        if obs is not None:
+            record(res, lines, pending, archive0, events, obs, 'corpus')
     cdir = os.path.join(common.VERIF, 'corpus', 'C10')
     if os.path.isdir(cdir):
         for f in sorted(os.listdir(cdir)):
             c = json.load(open(os.path.join(cdir, f)))
             if c.get('kind') == 'hist':
                 obs = run_history(w, c['archive0'], c['events'], res, None)
-                record(res, lines, pending, c['archive0'], c['events'], obs, 'corpus')
+                if obs is not None:
+                    record(res, lines, pending, c['archive0'], c['events'], obs, 'corpus')
     for _ in range(10000 if thorough else 700):
         archive0, events = gen_random(r)
         obs = run_history(w, archive0, events, res, r)
-        record(res, lines, pending, archive0, events, obs, 'random')
+        if obs is not None:
+            record(res, lines, pending, archive0, events, obs, 'random')
     if thorough:
         n = 0
         for a in (False, True):
